@@ -599,7 +599,13 @@ class SharesManager(BaseManager):
             # with a changed `modified` parameter will also be removed meaning
             # their attributes will be reset and these files attributes need
             # to be rescanned
-            shared_directory.items -= (shared_directory.items ^ shared_items)
+            stale_items = shared_directory.items ^ shared_items
+            shared_directory.items -= stale_items
+            if stale_items:
+                # The term map only holds weak references, but results that
+                # were handed out earlier can keep the removed items alive and
+                # with that searchable: drop them explicitly
+                self.rebuild_term_map()
 
         self._build_term_map(shared_directory)
         self._cleanup_term_map()
